@@ -28,7 +28,7 @@ def constants_block(constants):
 
 
 def mc(module_file, constants, ctx, name, invariants=(), properties=(), view="View", constraint=None, deadlock=False,
-       expect_violation=False, workers=4, timeout=1200, spec="Spec", count=True, extra=""):
+       expect_violation=False, workers=1, timeout=1200, spec="Spec", count=True, extra=""):
     """Exhaustive TLC run. A model that is meant to hold and does not is a machinery failure (the
     code did not change the model); a negative control that passes is one too."""
     cfg = cfg_text(constants, invariants, properties, spec=spec, view=view, constraint=constraint, deadlock=deadlock,
